@@ -204,32 +204,6 @@ func c11Check(elems []c11Elem, got [][]byte, closed bool, verdict string) (strin
 	return "", ""
 }
 
-func firstDiffStr(a, b string) int {
-	for i := 0; i < len(a) && i < len(b); i++ {
-		if a[i] != b[i] {
-			return i
-		}
-	}
-	if len(a) < len(b) {
-		return len(a)
-	}
-	return len(b)
-}
-
-func clip(s string, at int) string {
-	lo, hi := at-8, at+16
-	if lo < 0 {
-		lo = 0
-	}
-	if hi > len(s) {
-		hi = len(s)
-	}
-	if lo > hi {
-		lo = hi
-	}
-	return s[lo:hi]
-}
-
 func c11Eval(cs c11Case) (string, string) {
 	elems, stream, _ := c11Stream(cs.Stream)
 	if cs.Mode == "e2e" {
